@@ -36,8 +36,9 @@ def run(repo, rep):
     rq = 'asce.receive()[0]'
     n_store = n_stop = 0
     for s, kind in ipaths:
-        is_store = ('+%s.command_field == dimsemessages.CStoreRQMessage.command_field' % rq) in s.conds
-        is_get = ('+%s.command_field == dimsemessages.CGetRSPMessage.command_field' % rq) in s.conds
+        from ..sym import cond_eq
+        is_store = cond_eq(s.conds, '%s.command_field' % rq, 'dimsemessages.CStoreRQMessage.command_field')
+        is_get = cond_eq(s.conds, '%s.command_field' % rq, 'dimsemessages.CGetRSPMessage.command_field')
         sn = [e for e in s.trail if e.kind == 'send']
         ys = [e for e in s.trail if e.kind == 'yield']
         if len([e for e in s.trail if e.kind == 'receive']) != 1:
@@ -85,6 +86,7 @@ def run(repo, rep):
         p2.append('instances come from %s, expected the iterator returned by on_receive_move' % it)
     o = loop_body_outcomes(a.client, lp)
     outs = list(o.fall) + list(o.cont)
+    counter_locs = set()
     if o.brk or o.ret:
         p2.append('the sub-operation loop can be left early')
     item = 'ITEM(%s)' % it
@@ -103,29 +105,44 @@ def run(repo, rep):
             p3.append('%d progress reports for one sub-operation' % len(sn))
             continue
         fl = sn[0].fields(sn[0].args[0])
-        post = "AUG_completed(PRE_completed, 'Add', 1)"
-        comp = fl.get('num_of_completed_sub_ops')
+        comp = fl.get('num_of_completed_sub_ops') or ''
         rem = fl.get('num_of_remaining_sub_ops')
-        if comp != post:
+        # the reported value must be "the counter as it was when this iteration began, plus one", wherever the counter
+        # lives: a local (AUG_x(PRE_x, 'Add', 1)) or a field of an object created before the loop (AUG(PRE_<obj>.f, ...))
+        import re as _re
+        m_loc = _re.match(r"^AUG_(\w+)\(PRE_(\w+), 'Add', 1\)$", comp)
+        m_fld = _re.match(r"^AUG_(\w+)\(PRE_(NEW_\w+_L\d+)\.(\w+), 'Add', 1\)$", comp)
+        loc = None
+        if m_loc and m_loc.group(1) == m_loc.group(2):
+            loc = ('local', m_loc.group(1))
+        elif m_fld and m_fld.group(1) == m_fld.group(3):
+            loc = ('field', m_fld.group(2), m_fld.group(3))
+        if loc is None:
             p3.append('after the k-th sub-operation the report says completed = %s, i.e. the counter before its increment '
-                      '(k-1 performed, total-k+1 remaining)' % comp if comp == 'PRE_completed' else
+                      '(k-1 performed, total-k+1 remaining)' % comp if comp.startswith('PRE_') else
                       'completed reported as %s' % comp)
-        if rem != '%s[1] - %s' % (H, post):
+        else:
+            counter_locs.add(loc)
+        if rem != '%s[1] - %s' % (H, comp):
             p3.append('remaining reported as %s, expected total - completed(after increment)' % rem)
         const = status_constant(repo, fl.get('status', ''))
         if const is None or classify(repo, const[0], 'CMoveRSPMessage') != 'Pending':
             p3.append('progress report status is %s, not pending' % fl.get('status'))
         if subs and s.trail.index(subs[0]) > s.trail.index(sn[0]):
             p3.append('progress is reported before the sub-operation is performed')
-    # base and step of the counter
-    init = [n for n in ast.walk(f.node) if isinstance(n, ast.Assign) and norm(n.targets[0]) == 'completed']
-    aug = [n for n in ast.walk(lp) if isinstance(n, ast.AugAssign) and norm(n.target) == 'completed']
-    if not init or norm(init[0].value) != '0':
-        p3.append('completed does not start at 0')
-    if len(aug) != 1 or not isinstance(aug[0].op, ast.Add) or norm(aug[0].value) != '1':
-        p3.append('completed is not incremented by exactly 1 per sub-operation')
-    elif any(isinstance(p_, (ast.If, ast.Try)) and aug[0] in list(ast.walk(p_)) for p_ in lp.body):
-        p3.append('the increment of completed is conditional')
+    # base and step of the counter: 0 when the loop is entered, incremented by exactly 1 on every path of an iteration
+    for loc in sorted(counter_locs):
+        start = entry.get(loc[1]) if loc[0] == 'local' else entry.field(loc[1], loc[2])
+        if start != '0':
+            p3.append('completed does not start at 0 (%s)' % start)
+        for s in outs:
+            end = s.get(loc[1]) if loc[0] == 'local' else s.field(loc[1], loc[2])
+            want = "AUG_%s(PRE_%s, 'Add', 1)" % (loc[1], loc[1]) if loc[0] == 'local' else \
+                "AUG_%s(PRE_%s.%s, 'Add', 1)" % (loc[2], loc[1], loc[2])
+            if end != want:
+                p3.append('completed is not incremented by exactly 1 per sub-operation (%s on one path)' % end)
+    if not counter_locs and not p3:
+        p3.append('no progress counter found')
     rep.check(not p2, 'C19.U2', 'sopclass:qr_move_scp:one-suboperation-per-instance', f.loc(lp),
               'one store per instance on the sub-association to the application\'s destination (%d paths)' % len(outs), '; '.join(sorted(set(p2))))
     # final response counters and U4
@@ -153,7 +170,8 @@ def run(repo, rep):
             rem = fl.get('num_of_remaining_sub_ops', '')
             if rem != '%s[1] - %s' % (H, comp):
                 p3.append('final response: remaining = %s with completed = %s' % (rem, comp))
-            if 'completed' not in comp and comp != '0':
+            names = {l_[1] if l_[0] == 'local' else l_[2] for l_ in counter_locs} or {'completed'}
+            if comp != '0' and not any(('AUG_%s(' % n_) in comp or ('PHI_%s_' % n_) in comp or comp == n_ for n_ in names):
                 p3.append('final response: completed = %s is not the counter' % comp)
         if nothing and any(e.kind in ('request_association', 'subop') for e in s.trail):
             p4.append('with nothing to move a sub-association is still requested')
